@@ -716,7 +716,7 @@ def plugin_session(files, *, cli=None, env_flags=None, tty=False, ci_var=None, p
                 if per_file_globals and fname in per_file_globals:
                     g.update(per_file_globals[fname])
                 try:
-                    exec(compile(text, str(path), "exec"), g)
+                    exec(compile(text[1:] if text[:1] == "\ufeff" else text, str(path), "exec"), g)
                 except Exception as e:
                     res.outcomes[(fname, "<module>")] = "error"
                     res.exceptions[(fname, "<module>")] = e
